@@ -31,6 +31,33 @@ CLAIMED = {
             "Same trusted base as C01.", TECH + "; QF_NRA and QF_FP", "4/C27"),
 }
 
+CLAIMED.update({
+    "C10": ("Single-tree inputs (all rooted shapes with <= 5 leaves thorough; 7 named trees quick), grids of "
+            "3-5 points, both probability spaces, standardize on/off, cache_inside on/off: the posterior of "
+            "every non-sample node returned by inside_pass/outside_pass and by the whole "
+            "InsideOutsideMethod.run is proved equal, as a rational function of every prior cell, timepoint, "
+            "rate, eps and (uninterpreted) Poisson value, to the brute-force posterior of the discretised "
+            "model, and the returned likelihood equal to its normaliser.",
+            "Poisson pmf uninterpreted (positive, function of count and rate argument); np.max normalisers as "
+            "positive symbols; logsumexp replaced by its separately verified summary; exact reals; replay "
+            "through tsdate.inside_outside on the compiled code with real Poisson values.",
+            TECH + "; polynomial identity normalisation + QF_NRA", "4/C10"),
+    "C12": ("InsideOutsideMethod.run and MaximizationMethod.run executed in both probability spaces on shared "
+            "symbols for 4-8 small inputs (incl. two-tree inputs), grids 3-5: posterior probabilities, means, "
+            "variances, chosen timepoints and exp(log marginal) = marginal proved equal on every path.",
+            "As C10; non-integer span powers are an uninterpreted multiplicative power function.",
+            TECH + "; relational (two-run) execution", "4/C12"),
+    "C13": ("MaximizationMethod.run on 7-10 small inputs (1-2 parents per node), grids 3-5, both spaces: on every "
+            "arg-max path the assigned indices are grid points, ordered along every edge, and maximise inside x "
+            "product of parent-edge likelihoods within the youngest parent's bound.",
+            "As C10; inside values taken from the fit object.", TECH, "4/C13"),
+    "C17": ("PopulationSizeHistory with 1-3 symbolic epochs and time vectors of length 1-3 in any order: "
+            "to_coalescent equals the integral of 1/(2N), both compositions are the identity, 0 is fixed, both maps "
+            "strictly increase, as_dict round-trips, gamma_to_natural is (shape, rate/2N) for constant size and the "
+            "piecewise moment match otherwise (integer shapes 1-3).",
+            "Incomplete gamma uninterpreted; integer shapes only; exact reals.", TECH, "4/C17"),
+})
+
 NOT_APPLICABLE = {
     "C02": "Every row/column effect of get_modified_ts happens inside tskit's C table routines on concrete "
            "arrays; no symbolic input reaches a branch of tsdate code, so there is nothing for a solver to "
